@@ -80,7 +80,7 @@ def impl(c):
     from chipfiring.CFOrientation import OrientationState
     from chipfiring.CFGraph import Vertex
     from chipfiring.CFDivisor import chip
-    rng = random.Random(c["s"]); G = c["G"]; n = G["n"]; names = G["names"]; ext = names + ["zz_u0", "zz_u1", "zz_u2"]; q = c["q"]
+    rng = random.Random(c["s"]); G = c["G"]; n = G["n"]; names = G["names"]; ext = common.FreshNames(names + ["zz_u0", "zz_u1", "zz_u2"]); q = c["q"]
     g = common.build_impl_graph(G, rng); d = common.build_impl_divisor(G, c["D"], graph=g, rng=rng); cfg = CFConfig(d, names[q])
     g2 = common.build_impl_graph(G, rng)   # accepted edge insertions go to a graph no other object refers to (an orientation built earlier cannot know new edges)
     for op, v in c["hist"]: (d.lending_move if op == 0 else d.borrowing_move)(names[v])
